@@ -432,6 +432,46 @@ class ProgramModel:
             v = self._module_const(self.classes[owner].module, expr.id)
             if v is not None:
                 return self.eval_str_list(cn, owner, v, prop)
+        if isinstance(expr, ast.ListComp) and all(isinstance(g.target, ast.Name) and not g.ifs for g in expr.generators) \
+                and not (len(expr.generators) == 1 and isinstance(expr.elt, ast.Name)):
+            # [f"{quantity}_{resource}_per_instance" for quantity in self.A for resource in self.B]: names built from the
+            # members of tables that reduce to names themselves, the first generator outermost
+            def fmt(e_, env_):
+                if isinstance(e_, ast.Constant) and isinstance(e_.value, str):
+                    return e_.value
+                if isinstance(e_, ast.Name) and e_.id in env_:
+                    return env_[e_.id]
+                if isinstance(e_, ast.JoinedStr):
+                    parts = []
+                    for v_ in e_.values:
+                        if isinstance(v_, ast.Constant):
+                            parts.append(str(v_.value))
+                        elif isinstance(v_, ast.FormattedValue) and v_.conversion == -1 and v_.format_spec is None:
+                            p_ = fmt(v_.value, env_)
+                            if p_ is None:
+                                return None
+                            parts.append(p_)
+                        else:
+                            return None
+                    return "".join(parts)
+                if isinstance(e_, ast.BinOp) and isinstance(e_.op, ast.Add):
+                    l_, r_ = fmt(e_.left, env_), fmt(e_.right, env_)
+                    return None if l_ is None or r_ is None else l_ + r_
+                return None
+            domains = [(g.target.id, self.eval_str_list(cn, owner, g.iter, prop)) for g in expr.generators]
+            out = []
+
+            def rec(i, env_):
+                if i == len(domains):
+                    v_ = fmt(expr.elt, env_)
+                    if v_ is None:
+                        raise AnalysisError(f"{owner}.{prop}: cannot reduce the element `{ast.unparse(expr.elt)[:60]}` to a name")
+                    out.append(v_)
+                    return
+                for val in domains[i][1]:
+                    rec(i + 1, dict(env_, **{domains[i][0]: val}))
+            rec(0, {})
+            return out
         if isinstance(expr, ast.ListComp) and len(expr.generators) == 1 and isinstance(expr.elt, ast.Name) \
                 and isinstance(expr.generators[0].target, ast.Name) and expr.elt.id == expr.generators[0].target.id:
             # [a for a in <names> if <the class has a method derived from a>]: decidable on the class table
